@@ -178,12 +178,23 @@ Theorem C17_directory_dropped_refuted :
   exists t p subs, recorded t p subs = Some [] /\ std_glob t p subs = Some [[97; 47]].
 Proof. exact directory_dropped_refuted. Qed.
 
-(* `f/**` with a regular file f records the non-existing path "f/" *)
-Theorem C17_nonexistent_directory_recorded_refuted :
+(* D5c, fixed (203e57e): `f/**` with a regular file f.  glob still yields the non-existing "f/" and the
+   regex accepts it, but glob() skips it: nothing is recorded.  For every kept candidate, one that
+   ends with a separator is a directory.  Before the fix "f/" was recorded. *)
+Theorem C17_nonexistent_directory_filtered :
+  exists t p subs gp path,
+    conv_glob p subs = COk gp /\ In path (glob_paths_raw t gp) /\ mem_str path (all_paths t) = false
+    /\ recorded t p subs = Some [] /\ accepted_existing t p subs = Some [].
+Proof. exact nonexistent_directory_filtered. Qed.
+
+Theorem C17_kept_slash_is_directory :
+  forall pn, kept pn = true -> ends_slash (canon pn) = true -> is_dir_opt (snd pn) = true.
+Proof. exact kept_slash_is_directory. Qed.
+
+Theorem C17_nonexistent_directory_recorded_before_fix :
   exists t p subs path,
-    recorded t p subs = Some [path] /\ mem_str path (all_paths t) = false
-    /\ accepted_existing t p subs = Some [].
-Proof. exact nonexistent_directory_recorded_refuted. Qed.
+    recorded_unfiltered t p subs = Some [path] /\ mem_str path (all_paths t) = false.
+Proof. exact nonexistent_directory_recorded_before_fix. Qed.
 
 (* `d/*${*n}` and `d/**/*` accept "d/" (an empty last component) *)
 Theorem C17_empty_component_accepted_refuted :
@@ -202,12 +213,24 @@ Theorem C17_empty_component_backref_refuted :
     /\ nglob_ref false p subs path = Some false.
 Proof. exact empty_component_backref_refuted. Qed.
 
-(* `d/**` does not record a file whose name contains a newline *)
-Theorem C17_newline_not_matched_refuted :
+(* D5e, fixed (5ed14b3): `d/**` records a file whose name contains a newline, as the standard glob
+   does; `.*` under DOTALL accepts every string.  Before the fix (same regex text, no DOTALL) the
+   path was rejected. *)
+Theorem C17_recursive_wildcard_matches_newline :
   exists t p subs path,
-    std_glob t p subs = Some [[100;47]; path] /\ recorded t p subs = Some [[100;47]]
+    std_glob t p subs = Some [[100;47]; path] /\ recorded t p subs = Some [[100;47]; path]
     /\ nglob_ref false p subs path = Some true.
-Proof. exact newline_not_matched_by_recursive_wildcard_refuted. Qed.
+Proof. exact recursive_wildcard_matches_newline. Qed.
+
+Theorem C17_dstar_accepts_all : forall s, accepted re_dstar s.
+Proof. exact dstar_accepts_all. Qed.
+
+Theorem C17_newline_not_matched_before_fix :
+  let old := rcat [RStr [100;47]; RStar (RAny false)] in
+  let new := rcat [RStr [100;47]; RStar (RAny true)] in
+  pr old = pr new /\ conv_regex [100;47;42;42] [] = COk [RStr [100;47]; RStar (RAny true)]
+  /\ accepts old [100;47;110;10;108] = false /\ accepts new [100;47;110;10;108] = true.
+Proof. exact newline_not_matched_before_fix. Qed.
 
 (* `*${*n}aa` with n = `**`: the sub-pattern is compiled out of context *)
 Theorem C17_recursive_sub_pattern_refuted :
@@ -227,7 +250,8 @@ Theorem C17_model_tied_to_source :
   /\ (forall n, pr (RGrp n re_plus) = fill gen_post_encl_grp [n])
   /\ pr re_plus = gen_post_trail_plus /\ pr re_optslash = gen_post_optslash
   /\ re_escape_specials = gen_escape_specials
-  /\ gen_fingerprints = golden_fingerprints.
+  /\ gen_fingerprints = golden_fingerprints
+  /\ (dotall = gen_compile_dotall /\ gen_glob_skips_nondir_slash = true).
 Proof. exact model_tied_to_source. Qed.
 
 Example C17_example_update :
